@@ -611,6 +611,15 @@ impl Tracer {
                 }
                 Some(StopReason::SignalStop(_, signal)) => {
                     if QUIET_SIGNALS.contains(&signal) {
+                        // the signal is injected right here, take back the injection request
+                        // queued by `apply_new_status`, otherwise the next resume injects it again
+                        if let Some(idx) = self
+                            .inject_signal_queue
+                            .iter()
+                            .rposition(|req| *req == (pid, signal))
+                        {
+                            self.inject_signal_queue.remove(idx);
+                        }
                         self.tracee_ctl.tracee_ensure(pid).step(Some(signal))?;
                         continue;
                     }
